@@ -201,6 +201,13 @@ theorem cEnv_settle (i : Nat) (e : Env) : cEnv i e.settle = cEnv i e := by
   | nil => rfl
   | cons a as ih => rw [List.foldl_cons, ih, cEnv_settleOne]
 
+theorem cEnv_killAll (i : Nat) (e : Env) : cEnv i e.killAll = cEnv i e := by
+  unfold Env.killAll
+  generalize e.actors.map (·.aid) = ids
+  induction ids generalizing e with
+  | nil => rfl
+  | cons a as ih => rw [List.foldl_cons, ih, cEnv_die]
+
 theorem cEnv_spawn (i : Nat) (e : Env) (wid aid : Nat) : cEnv i (e.spawn wid aid) = cEnv i e := by
   simp [cEnv, Env.spawn, cActors, cTerm_append, cTerm, List.countP_cons, isTerm, Actor.heldJobs]
 
